@@ -189,7 +189,16 @@ func wideInstance(c *Ctx, s map[string]any) any {
 func (g *schemaGen) cluster() map[string]any {
 	c := g.c
 	k := func() string { return pick(c, propPool) }
-	switch c.W(10) {
+	switch c.W(11) {
+	case 10:
+		// succeeds on every object and marks every property as evaluated
+		if g.draft7 {
+			return map[string]any{"additionalProperties": map[string]any{}}
+		}
+		if c.W(2) == 0 {
+			return map[string]any{"unevaluatedProperties": true}
+		}
+		return map[string]any{"unevaluatedProperties": map[string]any{}}
 	case 0:
 		return map[string]any{"required": []any{k()}}
 	case 1:
@@ -268,7 +277,7 @@ func (g *schemaGen) clusterSchema() map[string]any {
 		case 2:
 			s["properties"] = entries(subset(c, propPool, 2, 4))
 		case 3:
-			if g.draft7 {
+			if g.draft7 || c.W(3) == 0 {
 				s["additionalProperties"] = g.cluster()
 			} else if c.W(2) == 0 {
 				s["unevaluatedProperties"] = false
@@ -386,7 +395,7 @@ func (g *schemaGen) leaf(s map[string]any) {
 	case 0:
 		s["type"] = pick(c, typePool)
 	case 1:
-		ts := subset(c, typePool, 2, 3)
+		ts := subset(c, typePool, 1, 3) // a one-element array is legal and distinct from the bare string
 		arr := make([]any, len(ts))
 		for i, t := range ts {
 			arr[i] = t
